@@ -1,13 +1,12 @@
 (* C12 proofs, part F: every ThrottleInternal-level op preserves the system invariant; global
    conservation and the rate bound over a window of ticks; no internal_error. *)
 From Coq Require Import List NArith Bool Lia PeanoNat.
-From LTV.C12 Require Import ParamsGen.
+From LTV.C12 Require Import ParamsGen PolicyGen.
 From LTV.C12 Require Import Model ProofsA ProofsB ProofsC ProofsD ProofsE.
 Import ListNotations.
 Local Open Scope N_scope.
 
-Lemma tick_ms : Params.throttle_tick_min_interval_ms * 1000 = 90000.
-Proof. reflexivity. Qed.
+
 
 (* ------------------------------------------------------------------ upd_nth *)
 Lemma upd_nth_length {A} (f : A -> A) l i : length (upd_nth i l f) = length l.
@@ -71,7 +70,7 @@ Lemma sinv_tick_pre x : sinv x -> enabled (rtl x) = true -> tick_pre x.
 Proof. intros [S1 S2 S3 S4 S5 S6 S7 S8] En. unfold tick_pre. rewrite En in S2. splits; auto. Qed.
 
 Lemma receive_tick_spec x : tick_pre x -> mrate x <> 0 -> mrate x < w32 -> 1000000 <= now x ->
-  last_tick x + 90000 <= now x -> tick_quota (now x - last_tick x) (mrate x) <= Qmax ->
+  last_tick x + Policy.tick_min_us <= now x -> tick_quota (now x - last_tick x) (mrate x) <= Qmax ->
   (exists x' acts, receive_tick x = Ok (x', acts) /\ sinv x' /\ now x' = now x /\ mrate x' = mrate x /\
      last_tick x' = now x /\
      G x' <= G x + tick_quota (now x - last_tick x) (mrate x) /\
@@ -79,8 +78,8 @@ Lemma receive_tick_spec x : tick_pre x -> mrate x <> 0 -> mrate x < w32 -> 10000
      Forall2 (Rsl (tick_quota (now x - last_tick x) (mrate x)) (tick_fraction (now x - last_tick x))) (slaves x) (slaves x'))
   \/ receive_tick x = Err E_rate_insert.
 Proof.
-  intros P Hr Hrl Hnow Ht Hq. unfold receive_tick. rewrite tick_ms.
-  destruct (N.ltb_spec (now x) (last_tick x + 90000)); [lia|].
+  intros P Hr Hrl Hnow Ht Hq. unfold receive_tick.
+  destruct (N.ltb_spec (now x) (last_tick x + Policy.tick_min_us)); [lia|].
   destruct (receive_quota_spec x _ (tick_fraction (now x - last_tick x)) P Hq)
     as [(x' & acts & E & (Q1 & Q2 & Q3 & Q4 & Q5 & Q6) & Hn & Hm & Hl & HG & Hh & _ & HF)|E]; rewrite E; cbn [bind];
     [left|right; reflexivity].
@@ -163,7 +162,7 @@ Lemma set_rate_root_spec x v : sinv x -> (if mrate x =? 0 then tick_quota 100000
                  G x' <= G x + (if mrate x =? 0 then tick_quota 1000000 v else 0))
   \/ set_rate_root x v = Err E_rate_insert.
 Proof.
-  intros S V. pose proof S as [S1 S2 S3 S4 S5 S6 S7 S8]. unfold set_rate_root.
+  intros S V. pose proof S as [S1 S2 S3 S4 S5 S6 S7 S8]. pose proof tick_min_le as Htm. unfold set_rate_root.
   destruct (N.eqb_spec v (mrate x)) as [Hv|Hv]; [left; exists x, OutOk; splits; auto; lia|].
   destruct (N.ltb_spec (uint_max - 1) v) as [Hbig|Hsm]; [left; exists x, OutInputErr; splits; auto; lia|].
   assert (Hvw : v < w32) by (unfold uint_max in Hsm; rewrite w32_val; lia).
@@ -250,7 +249,7 @@ Proof.
     + right. exact E.
   - (* tick *)
     apply andb_prop in V as [V V3]. apply andb_prop in V as [V1 V2].
-    apply N.leb_le in V2, V3. rewrite tick_ms in V2.
+    apply N.leb_le in V2, V3.
     destruct (sinv_advance x dt S) as [Sa Ga].
     assert (Hr : mrate x <> 0). { rewrite V1 in S3. destruct (N.eqb_spec (mrate x) 0); [discriminate|assumption]. }
     destruct (receive_tick_spec (advance x dt) (sinv_tick_pre _ Sa V1)) as [(x' & acts & E & S' & _ & _ & _ & HG & _)|E];
